@@ -45,6 +45,10 @@ type Sched struct {
 	OnRelease func(t *Thread, m *Mutex)
 	// OnSpawn is called by a managed thread that creates another one through verifsched.Go.
 	OnSpawn func(parent, child *Thread)
+	// Exclusive is a promise of the harness: while Run is active, the overlay's mutexes, Go, Yield and WaitUntil are
+	// only used by this scheduler's managed threads (no engine pollers, no other goroutines). The calling thread is
+	// then the one that holds the baton and need not be looked up by goroutine id (much faster).
+	Exclusive bool
 	// KeepLog makes the scheduler append "L:<thread>" / "U:<thread>" / "G:<thread>" lines to Log.
 	KeepLog bool
 	Log     []string
@@ -102,6 +106,12 @@ func (s *Sched) self() *Thread {
 func managed() (*Sched, *Thread) {
 	s := current()
 	if s == nil {
+		return nil, nil
+	}
+	if s.Exclusive {
+		if t := s.cur; t != nil {
+			return s, t
+		}
 		return nil, nil
 	}
 	t := s.self()
